@@ -172,6 +172,8 @@ def register(chk):
     chk.add("x86:dispatch-table", ob_dispatch)
     import c03_portable
     c03_portable.register(chk)
+    import c03_a64
+    c03_a64.register(chk)      # AArch64 back end (interpreter over the assembled instruction stream; no native replay on this host)
 
 
 def main(argv=None):
